@@ -13,10 +13,14 @@ C12 — the routes by which witness data reaches a redemption program, as functi
                  which the real code takes from an execution) re-inference on the constraints that
                  remain and `Value::prune` of every remaining witness value to its re-inferred type;
                  the three `.expect(..)` of `prune_with_tracker` are the outcome `panic`.
-                 `leak = true` is the code as it is: `prune_with_tracker` converts *every* node of
-                 the unpruned DAG into one fresh inference context before a branch is hidden, so
-                 the constraints of removed nodes stay (they matter when a removed branch shares
-                 a node with the remaining program); `leak = false` is principal re-inference.
+                 `leak = false` is the code as it is (since the repair "pruning re-infers the types
+                 of the pruned program in its own context"): the `Retyper` pass rebuilds the pruned
+                 program, in which hidden branches are only roots, in a second fresh context, so the
+                 re-inferred types are the principal types of the pruned program.  `leak = true` is
+                 the first pass (`Pruner`), which converts *every* node of the unpruned DAG into one
+                 context before a branch is hidden, so the constraints of removed nodes stay; before
+                 the repair its types were the result (they matter when a removed branch shares a
+                 node with the remaining program).  Both passes contain an `.expect(..)`.
 
 The invariant is `WitnessTyped arrows r`.  Proofs are in `RoutesProps.lean`.
 -/
@@ -206,8 +210,9 @@ def routeP (jt : JetTypes) (leak : Bool) (p : Plan) (program : Bool) (cand : Nat
     | _ => .panic
   | o => o
 
-/-- the code as it is: the constraints of removed branches leak (see the header) -/
-def codeLeaks : Bool := true
+/-- the code as it is: the types of the pruned program come from the `Retyper` pass, where the
+constraints of removed branches are gone (see the header) -/
+def codeLeaks : Bool := false
 
 /-- does the witness stream of a pruned program decode, at the *principal* types of the pruned
 program (what `RedeemNode::decode` infers), to the values the program carries? -/
